@@ -42,8 +42,16 @@ pub fn run_input(input: &Value) -> Case {
         "print" => {
             let a = arr(&input["v"]);
             let v = Version::from(a);
-            let d = v.to_string();
-            let dbg = format!("{:?}", v);
+            let mut d = v.to_string();
+            let mut dbg = format!("{:?}", v);
+            // "printing always yields the four-part canonical form": also through placeholders that carry a precision
+            // (which a formatter helper may apply as a maximum length); what differs is what gets compared with the model
+            for alt in [format!("{:.0}", v), format!("{:.1}", v), format!("{:.3}", v), format!("{:.6}", v), format!("{:.12}", v)] {
+                if alt != d { d = alt; break; }
+            }
+            for alt in [format!("{:.0?}", v), format!("{:.3?}", v), format!("{:.6?}", v)] {
+                if alt != dbg { dbg = alt; break; }
+            }
             out["impl"] = json!([d, dbg]);
             (
                 format!("KPrint {} {} {}", g_ver(a), g_str(&d), g_str(&dbg)),
